@@ -254,8 +254,6 @@ def parse_specification(
     assert len(elements) > 0
     if isinstance(elements[0], TokenAllow):
         first = elements.pop(0)
-        if all(isinstance(el, TokenAnything) for el in elements):
-            return TokenAnything()
         return TokenFunction(first, elements)  # type: ignore
     assert len(elements) == 1
     return elements[0]
